@@ -81,8 +81,8 @@ Proof. exact saml_spec_conforms. Qed.
     exactly the service provider, NameID is the user name, and message, assertion and session index carry the fresh
     identifiers in call order *)
 Theorem C03_built_response : forall reqid acs issuer audience email full given sur userid username id1 id2 rest issue until,
-  exists d, built_value "makeSuccessfulResponse" (Some (response_rec reqid acs issuer audience))
-              [attributes_rec email full given sur userid username []; DStr (b "f"); DNil] (id1 :: id2 :: rest) issue until = Some (d, rest) /\
+  built_sat "makeSuccessfulResponse" (Some (response_rec reqid acs issuer audience))
+              [attributes_rec email full given sur userid username []; DStr (b "f"); DNil] (id1 :: id2 :: rest) issue until (fun d r => r = rest /\
     at_ d ["Id"%string] = Some (DStr id1) /\ at_ d ["Assertion"; "Id"]%string = Some (DStr id2) /\
     at_ d ["InResponseTo"%string] = Some (DStr reqid) /\ dget d (sc_data ++ [PField "InResponseTo"]) = Some (DStr reqid) /\
     at_ d ["Destination"%string] = (if is_empty acs then None else Some (DStr acs)) /\
@@ -94,7 +94,7 @@ Theorem C03_built_response : forall reqid acs issuer audience email full given s
     dget d [PField "Assertion"; PField "Conditions"; PField "AudienceRestriction"; PIndex 0; PField "Audience"] = Some (DList [DStr audience]) /\
     at_ d ["Assertion"; "Subject"; "NameID"; "Text"]%string = Some (DStr username) /\
     at_ d ["Status"; "StatusCode"; "Value"]%string = Some (DStr (b "urn:oasis:names:tc:SAML:2.0:status:Success")) /\
-    dget d [PField "Assertion"; PField "AuthnStatement"; PIndex 0; PField "SessionIndex"] = Some (DStr id2).
+    dget d [PField "Assertion"; PField "AuthnStatement"; PIndex 0; PField "SessionIndex"] = Some (DStr id2)).
 Proof. exact success_response_fields. Qed.
 (** ... and the attribute statement: the six standard attributes, present iff not empty, in the code's order *)
 Theorem C03_built_attributes : forall email full given sur userid username fr issue until,
